@@ -11,14 +11,19 @@ decimal literals are the exact decimals, `Float::EPSILON` is `2⁻⁵²`.
 namespace G3d
 open Num
 
+/-- literals of the exact instance go through these two (semireducible) definitions so that the `Num` literal
+    instances never unify with ℝ's own numeral instances during `simp` -/
+noncomputable def realOfNat (n : Nat) : ℝ := (n : ℝ)
+noncomputable def realOfSci (m : Nat) (s : Bool) (e : Nat) : ℝ := (OfScientific.ofScientific m s e : ℝ)
+
 noncomputable instance instNumReal : Num ℝ where
   toAdd := inferInstance
   toSub := inferInstance
   toMul := inferInstance
   toDiv := inferInstance
   toNeg := inferInstance
-  ofNat n := (n : ℝ)
-  ofSci m s e := (OfScientific.ofScientific m s e : ℝ)
+  ofNat := realOfNat
+  ofSci := realOfSci
   eps := (2 : ℝ)⁻¹ ^ 52
   maxv := (2 : ℝ) ^ 1024 - (2 : ℝ) ^ 971
   pi := Real.pi
@@ -58,10 +63,17 @@ section simp_lemmas
 @[simp] theorem real_sqrt (a : ℝ) : Num.sqrt a = Real.sqrt a := rfl
 @[simp] theorem real_nextUp (a : ℝ) : Num.nextUp a = a := rfl
 @[simp] theorem real_nextDown (a : ℝ) : Num.nextDown a = a := rfl
-@[simp] theorem real_ofNat (n : Nat) : (@OfNat.ofNat ℝ n (Num.instOfNat n)) = (n : ℝ) := rfl
-@[simp] theorem real_ofNat' (n : Nat) : (Num.ofNat n : ℝ) = (n : ℝ) := rfl
+@[simp] theorem real_ofNat (n : Nat) : (@OfNat.ofNat ℝ n (Num.instOfNat n)) = realOfNat n := rfl
+@[simp] theorem real_ofNat' (n : Nat) : (Num.ofNat n : ℝ) = realOfNat n := rfl
+@[simp] theorem realOfNat_zero : realOfNat 0 = 0 := by simp [realOfNat]
+@[simp] theorem realOfNat_one : realOfNat 1 = 1 := by simp [realOfNat]
+@[simp] theorem realOfNat_ofNat (n : Nat) [n.AtLeastTwo] : realOfNat n = (OfNat.ofNat n : ℝ) := by
+  simp only [realOfNat]; exact (Nat.cast_ofNat (R := ℝ) (n := n))
+theorem realOfNat_cast (n : Nat) : realOfNat n = (n : ℝ) := rfl
 @[simp] theorem real_ofSci (m : Nat) (s : Bool) (e : Nat) :
     (@OfScientific.ofScientific ℝ Num.instOfScientific m s e) = (OfScientific.ofScientific m s e : ℝ) := rfl
+@[simp] theorem real_ofSci' (m : Nat) (s : Bool) (e : Nat) :
+    (Num.ofSci m s e : ℝ) = (OfScientific.ofScientific m s e : ℝ) := rfl
 @[simp] theorem real_eps : (Num.eps : ℝ) = (2 : ℝ)⁻¹ ^ 52 := rfl
 @[simp] theorem real_isNaN (a : ℝ) : Num.isNaN a = false := by simp [Num.isNaN, Num.beq]
 @[simp] theorem real_sin (a : ℝ) : Num.sin a = Real.sin a := rfl
